@@ -37,15 +37,29 @@ type seqSpace struct {
 func seqSpaces(thorough bool) []seqSpace {
 	small := universe{InChans: []uint64{1, 2}, InIDs: 1, OutChans: []uint64{3}, MaxID: 2}
 	mid := universe{InChans: []uint64{1, 2}, InIDs: 2, OutChans: []uint64{3, 4}, MaxID: 3}
+	// origin: one LOCALLY INITIATED circuit (incoming key on hop.Source, attempt id
+	// above 2^32) next to one forwarded circuit that carries a sphinx error encrypter
+	// and a forwarding-package reference; the channel store also holds records without
+	// a short channel id (pending open, unassigned, and - op "closezero" - fully
+	// closed). Realistic scids (distinct block / tx / output).
+	origin := universe{InChans: []uint64{0, scid(700_001, 11, 1)}, InIDs: 1, OutChans: []uint64{scid(700_003, 13, 2)}, MaxID: 2,
+		Enc: []int{encNone, encSphinx}, Scidless: true}
+	// kinds: the two blinded-route encrypter kinds (thorough; quick has them in the lattice)
+	kinds := universe{InChans: []uint64{scid(700_001, 11, 1), scid(700_002, 12, 0)}, InIDs: 1, OutChans: []uint64{scid(700_003, 13, 2)}, MaxID: 2,
+		Enc: []int{encIntro, encRelay}}
 	if thorough {
 		return []seqSpace{
 			{Name: "2in-1out", U: small, Depth: envInt("C07_DEPTH_SMALL", 32), Thorough: true},
 			{Name: "4in-2out", U: mid, Depth: envInt("C07_DEPTH_MID", 6), Thorough: false},
+			{Name: "origin-1out", U: origin, Depth: envInt("C07_DEPTH_ORIGIN", 32), Thorough: true},
+			{Name: "kinds-1out", U: kinds, Depth: envInt("C07_DEPTH_KINDS", 6), Thorough: true},
 		}
 	}
+	// the cheap spaces first: what they leave of the budget goes to the deep one
 	return []seqSpace{
-		{Name: "2in-1out", U: small, Depth: envInt("C07_DEPTH_SMALL", 7), Thorough: true},
 		{Name: "4in-2out", U: mid, Depth: envInt("C07_DEPTH_MID", 4), Thorough: false},
+		{Name: "origin-1out", U: origin, Depth: envInt("C07_DEPTH_ORIGIN", 6), Thorough: true},
+		{Name: "2in-1out", U: small, Depth: envInt("C07_DEPTH_SMALL", 7), Thorough: true},
 	}
 }
 
@@ -55,6 +69,7 @@ type seqResult struct {
 	R          seqmc.Result
 	R2States   int64 // determinism re-check
 	Nontrivial int64
+	WallS      float64
 }
 
 func runSeqSpace(run *evid.Run, rep *reporter, sp seqSpace, deadline time.Time, workers int, recheck bool) seqResult {
@@ -91,7 +106,9 @@ func runSeqSpace(run *evid.Run, rep *reporter, sp seqSpace, deadline time.Time, 
 		rep.stop.Store(true)
 	}
 	res := seqResult{Space: sp.Name, Alphabet: len(alpha)}
+	t0 := time.Now()
 	res.R = seqmc.Run(opts, onPanic)
+	res.WallS = time.Since(t0).Seconds()
 	res.Nontrivial = nontriv
 	return res
 }
@@ -104,9 +121,12 @@ func TestC07(t *testing.T) {
 	workers := envInt("C07_WORKERS", runtime.GOMAXPROCS(0))
 	// every mutex the scheduled threads touch is bound explicitly (vsync.Bind)
 	vsched.SetGoroutineLookup(false)
-	seqBudget, concBudget := 100*time.Second, 40*time.Second
+	seqBudget, concBudget, latBudget := 125*time.Second, 40*time.Second, 45*time.Second
 	if run.Thorough() {
-		seqBudget, concBudget = 19*time.Minute, 6*time.Minute
+		seqBudget, concBudget, latBudget = 14*time.Minute, 6*time.Minute, 6*time.Minute
+	}
+	if n := envInt("C07_LAT_BUDGET_S", 0); n > 0 {
+		latBudget = time.Duration(n) * time.Second
 	}
 	if n := envInt("C07_SEQ_BUDGET_S", 0); n > 0 {
 		seqBudget = time.Duration(n) * time.Second
@@ -179,6 +199,11 @@ func TestC07(t *testing.T) {
 		// determinism re-check: the smallest space at a reduced depth, twice
 		if run.Violations() == 0 {
 			sp := spaces[0]
+			for _, x := range spaces {
+				if x.Name == "2in-1out" {
+					sp = x
+				}
+			}
 			sp.Depth = 3
 			a := runSeqSpace(run, newReporter(run, "seq"), sp, time.Now().Add(30*time.Second), workers, true)
 			b := runSeqSpace(run, newReporter(run, "seq"), sp, time.Now().Add(30*time.Second), workers, true)
@@ -190,14 +215,29 @@ func TestC07(t *testing.T) {
 		}
 	}
 
-	if crep.nondet.Load() || srep.nondet.Load() {
+	// ---- restart lattice ----
+	lrep := newReporter(run, "lat")
+	var lres latResult
+	if os.Getenv("C07_SKIP_LAT") == "" && run.Violations() == 0 {
+		lres = runLattice(run, lrep, run.Thorough(), time.Now().Add(latBudget), workers)
+		if !lres.Exhaustive {
+			exhaustive = false
+			caps = append(caps, lres.Cap)
+		}
+		samples = append(samples, lres.Samples...)
+		transitions += lres.Ops
+		replays += lres.Executed
+		nontriv += lres.Executed
+	}
+
+	if crep.nondet.Load() || srep.nondet.Load() || lrep.nondet.Load() {
 		exhaustive = false
 		caps = append(caps, "nondeterminism_detected (a violation did not reproduce; not reported)")
 	}
 	perSpace := []any{}
 	for _, r := range sres {
 		perSpace = append(perSpace, map[string]any{
-			"space": r.Space, "alphabet": r.Alphabet, "states": r.R.States, "transitions": r.R.Transitions,
+			"space": r.Space, "alphabet": r.Alphabet, "wall_s": r.WallS, "states": r.R.States, "transitions": r.R.Transitions,
 			"self_loops": r.R.SelfLoops, "fresh_instances": r.R.Replays, "per_depth": r.R.PerDepth,
 			"max_depth": r.R.MaxDepth, "unexpanded_at_bound": r.R.Unexpanded, "exhaustive_to_bound": r.R.Exhaustive,
 			"replay_mismatches": r.R.ReplayMismatches,
@@ -230,6 +270,12 @@ func TestC07(t *testing.T) {
 	cov["write_tx_per_op"] = srep.txTable.Map()
 	cov["max_write_tx_per_op"] = srep.maxTx.Load()
 	cov["closed_set_observed"] = srep.closedOK.Load() && crep.closedOK.Load()
+	cov["lattice"] = map[string]any{
+		"cells": lres.Cells, "cells_executed": lres.Executed, "cells_collapsed_by_contract": lres.Collapsed,
+		"ops_on_impl": lres.Ops, "circuit_fates_at_restart": lres.Fates, "wall_s": lres.WallS, "exhaustive": lres.Exhaustive,
+		"outcome_classes": lrep.outcomes.Map(),
+		"product":         "stage{absent,half,unc@a,unc@b,cmt@a,cmt@b}^3 (1 local + 2 forwarded circuits) x channel states x resolution-message subsets x scid-less closed record x restart variant x encrypter-kind vector; see lattice_test.go latConfigFor for the values per tier",
+	}
 	cov["conc"] = map[string]any{
 		"scenarios": cres.Specs, "scenarios_outside_contract": cres.Skipped, "states": cres.States,
 		"transitions": cres.Transitions, "executions": cres.Replays, "complete_schedules_judged": cres.Schedules,
@@ -237,7 +283,9 @@ func TestC07(t *testing.T) {
 		"max_schedule_length": cres.MaxDepth, "determinism_recheck": cres.DetRecheck, "preemption_bound": "none (full)",
 	}
 	run.Assumptions = append(run.Assumptions,
-		"Universe: seq spaces 2 incoming keys x 1 outgoing channel (ids 0-1) and 4 incoming keys x 2 outgoing channels (ids 0-2); conc: one contested circuit, one outgoing channel.",
+		"Universe: seq spaces 2 incoming keys x 1 outgoing channel (ids 0-1), 4 incoming keys x 2 outgoing channels (ids 0-2), and origin-1out (1 locally initiated + 1 forwarded sphinx circuit, scid-less channel records); restart lattice: 1 local + 2 forwarded circuits x 2 outgoing channels; conc: one contested circuit, one outgoing channel.",
+		"Locally initiated circuits have incoming key (hop.Source, attempt id); hop.Source is never closed. Channel records without a short channel id never carried an HTLC, so the model ignores them. Stray keystones (keystone without circuit record: legacy databases only, unreachable through the API) are not explored.",
+		"Circuit payload: wherever the map shows a circuit (fresh, restored, on disk) it must serialise to the bytes of the committed circuit and its error encrypter must answer a fixed probe like the committed one (kinds none/sphinx/introduction/relaying/mock; real hop.OnionProcessor as extracter).",
 		"Caller contract (resolve() in seq_test.go): outgoing HTLC ids are allocated contiguously by the outgoing link and a circuit whose outgoing HTLC is not yet on a commitment is neither deleted nor purged by an incoming-channel close; OpenCircuits is called once per circuit and batch with fresh outgoing keys (opendup breaks this on purpose). Outside it TrimOpenCircuits' forward scan stops at the first gap.",
 		"Write-failure injection covers CommitCircuits, OpenCircuits, DeleteCircuits (TrimOpenCircuits has no rollback and the statement does not ask for one).",
 		"Crash granularity = committed kvdb write transaction (backend contract); kvdb.Batch degrades to Update under crashdb.",
@@ -280,7 +328,11 @@ func replayFile(run *evid.Run, path string) int {
 			fmt.Printf("INFO bad replay: %v\n", err)
 			return 2
 		}
-		rep := newReporter(run, "seq")
+		phase := "seq"
+		if d.Phase != "" {
+			phase = d.Phase
+		}
+		rep := newReporter(run, phase)
 		for round := 1; round <= 3; round++ {
 			fmt.Printf("INFO --- replay round %d ---\n", round)
 			s, err := newSys(&d.Universe, pool, rep)
